@@ -343,7 +343,7 @@ def units(tier, seed):
     us = []
     for kind, B, cx in (("ber", None, False), ("ber", None, True), ("bler", None, False), ("bler", 4, False), ("bler", 2, True), ("ser", 8, False), ("fer", None, False)):
         us.append(Unit(f"hist_exh_{kind}_{B}_{'c' if cx else 'r'}", "c16:unit_histories_exhaustive", {"kind": kind, "B": B, "maxlen": 6 if T else 5, "complex_": cx}, 6 if T else 3))
-        us.append(Unit(f"hist_sm_{kind}_{B}_{'c' if cx else 'r'}", "c16:unit_histories_stateful", {"kind": kind, "B": B, "steps": 200 if T else 50, "examples": 300 if T else 60, "complex_": cx}, 5))
-    us.append(Unit("oneshot", "c16:unit_oneshot", {"n_gen": 4000 if T else 500}, 5))
-    us.append(Unit("partitions", "c16:unit_partitions", {"n_gen": 4000 if T else 500}, 3))
+        us.append(Unit(f"hist_sm_{kind}_{B}_{'c' if cx else 'r'}", "c16:unit_histories_stateful", {"kind": kind, "B": B, "steps": 200 if T else 50, "examples": 1000 if T else 60, "complex_": cx}, 5))
+    us.append(Unit("oneshot", "c16:unit_oneshot", {"n_gen": 20000 if T else 500}, 5))
+    us.append(Unit("partitions", "c16:unit_partitions", {"n_gen": 20000 if T else 500}, 3))
     return us
